@@ -26,11 +26,20 @@ B. DiagramParser.py / DiagramTranslator.py: methods of the dataclasses Schematic
      A, B = elm.get_nodes(x)
      NAME += <nat>
      S.add(x); S.remove(x); D.update({k: v})                       (receiver a local name)
+     D[k] = v                                                      (D a local dictionary; same entry as D.update({k: v}),
+                                                                    v is evaluated before k)
      for NAME in <iterable>: <body>     -> fold over the tuple of the already-bound locals the body rebinds
            iterable: a list; self.all_nodes / self.unique_nodes (iterated in the order parameters oa / ou); any other set
            only with the body `S.remove(NAME)`
+     for A, B in <list of elm.get_nodes(..) tuples>: <body>        (the same fold, the loop function binds the components)
+     for NAME in <list>: if <test>: return <expr>   followed by the rest of the function
+           -> match find (fun NAME => test) list with Some NAME => expr | None => <rest> end   (first match; the test cannot
+              raise and rebinds nothing; nothing else may be in the loop)
      while len(S) > V:  V = len(S);  for x in self.<pure list property>: <body>          (fuel #list + 2)
      while str(I) in D.values():  I += 1                                                 (fuel #D + 1)
+     while True:  V = len(S);  for .. in L: <body>;  if len(S) == V: return <expr>       (do_until, fuel #L + 2; L a local list
+           that the body leaves alone, or a pure list property; last statement of the function; <expr> sees the locals as
+           they are after the last round)
      if / elif / else (a branch either ends in return / raise on every path or not at all); return <expr>;
      raise MultipleGroundNodes | UnknownElement(..) | UnknownTranslator(..)
      def P(e): try: _ = e.name / except AttributeError: return False / return True       (local "hasattr" predicate)
@@ -43,6 +52,12 @@ B. DiagramParser.py / DiagramTranslator.py: methods of the dataclasses Schematic
      tuple(map(<bound method>, elm.get_nodes(e))); e.name; e.node_id (e known to be an elm.Node); A.union(B);
      A.intersection(B); set([x]); len(x); x in A; x not in A; D.keys(); D.values(); str(n); list(<ordered set>); L[literal];
      D[k]; A.pop(); {}; a + b; a > b, a >= b, a < b, a <= b, a == b (integers), s == t (strings); non-negative int literals; None; f(args) for f looked up in a translator map;
+     hasattr(e, 'name') (the same has-attribute primitive as the local predicate P above; other attribute names are refused);
+     k in D, k not in D for a dictionary D (= k in D.keys());
+     a if c else b (c a boolean; a, b of the same kind point / str / int / bool / element): `if c then a else b`; only the
+       selected branch is evaluated — when a branch can raise or rebinds a local (S.pop() rebinds S) both branches become
+       computations that return the value together with the rebound locals, as the statement form of the conditional does;
+     [elm.get_nodes(x) for x in L] (a list of static tuples of points; usable as the iterable of `for A, B in`, in len(..));
      SchematicDiagramParser(schematic); DiagramTranslator(parser, <map>); translator(e); parser.<property>;
      _remove_none(l); Circuit(l); Network(l, g).
 C. CircuitComponentTranslators.py: `def f(element: elm.C, nodes: tuple[str, ...])` with body
@@ -650,6 +665,8 @@ class Fn:
         if isinstance(n, ast.FunctionDef):
             return False
         if isinstance(n, ast.Subscript):
+            if isinstance(n.ctx, ast.Store):         # D[k] = v stores an entry: only evaluating D and k can raise
+                return self.can_raise(n.value) or self.can_raise(n.slice)
             if self.is_get_nodes(n.value):
                 return any(self.can_raise(a) for a in n.value.args)
             return True
@@ -700,6 +717,9 @@ class Fn:
             return self.attribute(e)
         if isinstance(e, ast.Subscript):
             return self.subscript(e)
+        if self.is_get_nodes(e):
+            pre, items = self.static_tuple(e)
+            return pre, '(' + ', '.join(t for t, _ in items) + ')', ('pttuple', len(items))
         if isinstance(e, ast.Call):
             return self.call(e)
         if isinstance(e, (ast.ListComp, ast.SetComp, ast.DictComp)):
@@ -717,7 +737,36 @@ class Fn:
             return p, f'(negb {t})', ('bool',)
         if isinstance(e, ast.Compare):
             return self.compare(e)
+        if isinstance(e, ast.IfExp):
+            return self.ifexp(e)
         raise self.bad(e, f'expression {ast.unparse(e)}')
+
+    def ifexp(self, e):
+        """`a if c else b`.  Only the selected branch is evaluated: whatever a branch needs to bind (a lookup that can raise, a
+        `pop`) stays inside that branch.  A local a branch rebinds (`S.pop()` rebinds S) is handed out of the conditional
+        together with the value, exactly as the statement form `if c: x = a / else: x = b` does."""
+        pc, tc, tyc = self.expr(e.test)
+        if tyc != ('bool',):
+            raise self.bad(e, f'condition {ast.unparse(e.test)} of a conditional expression is not a boolean')
+        names = [n for n in self.assigned([ast.Expr(value=e.body), ast.Expr(value=e.orelse)]) if n in self.env]
+        for n in names:
+            if n in self.params:
+                raise self.bad(e, f'a branch of the conditional expression mutates the parameter {n}')
+        saved = dict(self.env)
+        pa, ta, tya = self.expr(e.body)
+        self.env = dict(saved)
+        pb, tb, tyb = self.expr(e.orelse)
+        self.env = saved
+        if tya != tyb or tya[0] not in ('pt', 'str', 'nat', 'bool', 'sym'):
+            raise self.bad(e, f'branches of the conditional expression are of kinds {tya[0]} / {tyb[0]}')
+        if not pa and not pb and not names:
+            return pc, f'(if {tc} then {ta} else {tb})', tya
+        x = self.fresh()
+        vs = [self.env[n].coq for n in names]        # a rebound local keeps its Coq name
+        arm_a = self.binds(pa, 'Ok ' + (f'({", ".join([ta] + vs)})' if vs else ta))
+        arm_b = self.binds(pb, 'Ok ' + (f'({", ".join([tb] + vs)})' if vs else tb))
+        out = f'({", ".join([x] + vs)})' if vs else x
+        return pc + [(out, f'(if {tc} then {arm_a} else {arm_b})')], x, tya
 
     def attribute(self, e):
         d = dotted(e)
@@ -800,6 +849,8 @@ class Fn:
                 t = f'(set_mem {ta} {tb})'
             elif tyb == ('ptlist',) and tya == ('pt',):
                 t = f'(pmem {ta} {tb})'
+            elif tyb[0] == 'dict' and tya == ('pt',):          # k in D  is  k in D.keys()
+                t = f'(pmem {ta} (dict_keys {tb}))'
             elif tyb == ('strlist',) and tya == ('str',):
                 t = f'(lmem {ta} {tb})'
             else:
@@ -839,6 +890,8 @@ class Fn:
             return pre, t, ('pt',), False
         if ty == ('optlist',):
             return pre, t, ('opt',), False
+        if ty[0] == 'pttuplelist':
+            return pre, t, ('pttuple', ty[1]), False
         if ty == ('ptset',):
             if isinstance(e, ast.Attribute) and self.member_ref(e) is not None and e.attr in ('all_nodes', 'unique_nodes'):
                 o = 'oa' if e.attr == 'all_nodes' else 'ou'
@@ -899,7 +952,8 @@ class Fn:
                 if pe or tye != ('pt',):
                     raise self.bad(e, 'set comprehension element is not a point that cannot raise')
                 return pre, f'(set_of_list (map (fun {v} => {te}) {lt}))', ('ptset',)
-            rty = {'sym': ('symlist', tye[1] if tye[0] == 'sym' else None), 'pt': ('ptlist',), 'opt': ('optlist',)}.get(tye[0])
+            rty = {'sym': ('symlist', tye[1] if tye[0] == 'sym' else None), 'pt': ('ptlist',), 'opt': ('optlist',),
+                   'pttuple': ('pttuplelist', tye[1] if tye[0] == 'pttuple' else None)}.get(tye[0])
             if rty is None:
                 raise self.bad(e, f'list comprehension element of kind {tye[0]}')
             if pe:
@@ -935,7 +989,7 @@ class Fn:
         if fn == 'len':
             self.args_n(e, 1, 'len')
             p, t, ty = self.expr(e.args[0])
-            if ty[0] not in ('ptset', 'ptlist', 'symlist', 'dict', 'strlist', 'optlist', 'somelist'):
+            if ty[0] not in ('ptset', 'ptlist', 'symlist', 'dict', 'strlist', 'optlist', 'somelist', 'pttuplelist'):
                 raise self.bad(e, f'len of {ast.unparse(e.args[0])}')
             return p, f'(length {t})', ('nat',)
         if fn == 'str':
@@ -993,6 +1047,15 @@ class Fn:
                 else:
                     xs.append(f'({tf[1:-1]} {it})')
             return pre, f'[{"; ".join(xs)}]', ('strtuple',)
+        if fn == 'hasattr':
+            self.args_n(e, 2, 'hasattr')
+            pre, t, _ = self.sym(e.args[0], 'hasattr')
+            a = e.args[1]
+            if not (isinstance(a, ast.Constant) and isinstance(a.value, str) and IDENT.match(a.value)):
+                raise self.bad(e, f'hasattr: the attribute name {ast.unparse(a)} is not a string literal')
+            self.gen.elements.classes_with(a.value)      # refuses attributes other than `name`
+            self.gen.attr_defs.setdefault(a.value, None)
+            return pre, f'(has_attribute {t} g_classes_with_{a.value})', ('bool',)
         if fn is not None and fn in self.preds:
             self.args_n(e, 1, fn)
             pre, t, _ = self.sym(e.args[0], fn)
@@ -1117,6 +1180,9 @@ class Fn:
                 return
             if isinstance(n, ast.Assign):
                 for t in n.targets:
+                    if isinstance(t, ast.Subscript) and isinstance(t.value, ast.Name):
+                        add(t.value.id)            # D[k] = v rebinds D (k is only read)
+                        continue
                     for x in ast.walk(t):
                         if isinstance(x, ast.Name):
                             add(x.id)
@@ -1234,6 +1300,8 @@ class Fn:
         raise self.bad(st, f'statement {type(st).__name__}: {ast.unparse(st).splitlines()[0]}')
 
     def note_return(self, st, ty):
+        if ty[0] in ('pttuple', 'pttuplelist', 'method', 'class'):
+            raise self.bad(st, f'return of a value of kind {ty[0]}')
         if self.rty is None:
             self.rty = ty
         elif self.rty[0] != ty[0]:
@@ -1274,12 +1342,27 @@ class Fn:
                 self.bind_local(st, x.id, ty)
                 out += f'{ind}let v_{x.id} := {t} in\n'
             return out + self.block(rest, ctx, m, ind)
+        if isinstance(tg, ast.Subscript):
+            # D[k] = v  (Python evaluates v, then D and k): the same entry as D.update({k: v})
+            if not (isinstance(tg.value, ast.Name) and tg.value.id in self.env and self.env[tg.value.id].ty[0] == 'dict'):
+                raise self.bad(st, f'item assignment to something other than a local dictionary: {ast.unparse(tg)}')
+            name = tg.value.id
+            if name in self.params:
+                raise self.bad(st, f'mutation of the parameter {name}')
+            pv, tv, tyv = self.expr(st.value)
+            pk, tk, tyk = self.expr(tg.slice)
+            v = self.env[name]
+            if tyk != ('pt',) or tyv[0] not in ('pt', 'str') or (v.ty[1] is not None and v.ty[1] != tyv):
+                raise self.bad(st, f'item assignment {ast.unparse(st)} does not fit the dictionary')
+            self.env[name] = Var(v.coq, ('dict', tyv))
+            return self.emit_pre(self.let(pv + pk, m, st), ind) + f'{ind}let {v.coq} := kd_set {v.coq} {tk} {tv} in\n' + \
+                self.block(rest, ctx, m, ind)
         if not isinstance(tg, ast.Name):
             raise self.bad(st, f'assignment target {ast.unparse(tg)}')
         pre, t, ty = self.expr(st.value)
         if ty[0] in MUTABLE and isinstance(st.value, ast.Name):
             raise self.bad(st, f'{tg.id} = {st.value.id} aliases a mutable object')
-        if ty[0] in ('method', 'none', 'class'):
+        if ty[0] in ('method', 'none', 'class', 'pttuple'):
             raise self.bad(st, f'assignment of a value of kind {ty[0]}')
         self.let(pre, m, st)
         self.bind_local(st, tg.id, ty)
@@ -1333,26 +1416,54 @@ class Fn:
                 raise self.bad(node, f'the body rebinds the parameter {n}')
         return names
 
+    def loop_targets(self, st):
+        """`for x in` / `for a, b in`  ->  the names"""
+        tg = st.target
+        if isinstance(tg, ast.Name):
+            xs = [tg.id]
+        elif isinstance(tg, ast.Tuple) and tg.elts and all(isinstance(x, ast.Name) for x in tg.elts):
+            xs = [x.id for x in tg.elts]
+        else:
+            raise self.bad(st, f'loop target {ast.unparse(tg)}')
+        for x in xs:
+            if x in self.env or not IDENT.match(x) or x in self.gen.reserved or xs.count(x) != 1:
+                raise self.bad(st, f'loop variable {x} shadows a local')
+        return xs
+
+    def bind_targets(self, st, xs, ety):
+        """binds the loop variables; -> the Coq binder of the loop function"""
+        if isinstance(st.target, ast.Tuple):
+            if ety[0] != 'pttuple' or ety[1] != len(xs):
+                raise self.bad(st, f'unpacking the members of {ast.unparse(st.iter)} into {len(xs)} names')
+            for x in xs:
+                self.env[x] = Var(f'v_{x}', ('pt',))
+            return "'(" + ', '.join(f'v_{x}' for x in xs) + ')'
+        if ety[0] == 'pttuple':
+            raise self.bad(st, f'the members of {ast.unparse(st.iter)} are tuples: unpack them in the loop target')
+        self.env[xs[0]] = Var(f'v_{xs[0]}', ety)
+        return f'v_{xs[0]}'
+
     def for_loop(self, st, rest, ctx, m, ind):
-        if st.orelse or not isinstance(st.target, ast.Name) or self.has_exit(st.body):
-            raise self.bad(st, 'for loop with else / tuple target / return or raise inside')
-        x = st.target.id
-        if x in self.env or not IDENT.match(x) or x in self.gen.reserved:
-            raise self.bad(st, f'loop variable {x} shadows a local')
+        if st.orelse:
+            raise self.bad(st, 'for loop with else')
+        xs = self.loop_targets(st)
+        if self.has_exit(st.body):
+            return self.for_find(st, xs, rest, ctx, m, ind)
+        x = xs[0]
         names = self.state_of(st.body, st)
         if isinstance(st.iter, ast.Name) and st.iter.id in names:
             raise self.bad(st, 'the loop body mutates the object it iterates')
         pre, lt, ety, anon = self.iterable(st.iter)
         if anon:
             b = st.body[0].value if len(st.body) == 1 and isinstance(st.body[0], ast.Expr) else None
-            if not (isinstance(b, ast.Call) and isinstance(b.func, ast.Attribute) and b.func.attr == 'remove'
+            if not (len(xs) == 1 and isinstance(b, ast.Call) and isinstance(b.func, ast.Attribute) and b.func.attr == 'remove'
                     and len(b.args) == 1 and isinstance(b.args[0], ast.Name) and b.args[0].id == x):
                 raise self.bad(st, f'iteration over the unordered set {ast.unparse(st.iter)} with a body other than S.remove({x})')
         mb = any(self.can_raise(s) for s in st.body)
         if mb and not m:
             raise self.bad(st, 'internal: raising loop body in a pure block')
         saved = dict(self.env)
-        self.env[x] = Var(f'v_{x}', ety)
+        vx = self.bind_targets(st, xs, ety)
         body = self.block(st.body, ('state', names), mb, ind + '    ')
         types = {n: self.env[n].ty for n in names}
         self.env = saved
@@ -1360,12 +1471,95 @@ class Fn:
             self.env[n] = Var(self.env[n].coq, types[n])
         out = self.emit_pre(self.let(pre, m, st), ind)
         if mb:
-            out += f'{ind}let* {self.pat(names, False)} := for_res {lt} {self.pat(names, False)} (fun {self.pat(names, True)} v_{x} =>\n{body}{ind}  ) in\n'
+            out += f'{ind}let* {self.pat(names, False)} := for_res {lt} {self.pat(names, False)} (fun {self.pat(names, True)} {vx} =>\n{body}{ind}  ) in\n'
         else:
-            out += f'{ind}let {self.pat(names, True)} := fold_left (fun {self.pat(names, True)} v_{x} =>\n{body}{ind}  ) {lt} {self.pat(names, False)} in\n'
+            out += f'{ind}let {self.pat(names, True)} := fold_left (fun {self.pat(names, True)} {vx} =>\n{body}{ind}  ) {lt} {self.pat(names, False)} in\n'
         return out + self.block(rest, ctx, m, ind)
 
+    def for_find(self, st, xs, rest, ctx, m, ind):
+        """for x in L: if c: return e      (nothing else in the body; c cannot raise and rebinds nothing)
+           <rest>
+        = the first member of L satisfying c decides the result, <rest> runs when there is none:
+           match find (fun x => c) L with Some x => e | None => <rest> end"""
+        shape = '`for x in <list>: if <test>: return <expr>`'
+        b = st.body[0] if len(st.body) == 1 else None
+        if not (ctx[0] == 'ret' and len(xs) == 1 and isinstance(st.target, ast.Name) and isinstance(b, ast.If) and not b.orelse
+                and len(b.body) == 1 and isinstance(b.body[0], ast.Return) and b.body[0].value is not None):
+            raise self.bad(st, f'a for loop with return / raise inside must have the shape {shape}')
+        x = xs[0]
+        pre, lt, ety, anon = self.iterable(st.iter)
+        if anon or ety[0] == 'pttuple':
+            raise self.bad(st, f'early return from an iteration over {ast.unparse(st.iter)} (no modelled order)')
+        if self.can_raise(b.test) or self.assigned([ast.Expr(value=b.test)]):
+            raise self.bad(b, f'the test of {shape} can raise or mutates a local')
+        saved = dict(self.env)
+        self.env[x] = Var(f'v_{x}', ety)
+        pc, tc, tyc = self.expr(b.test)
+        if pc or tyc != ('bool',):
+            raise self.bad(b, f'the test of {shape} is not a boolean that cannot raise')
+        found = self.block([b.body[0]], ctx, m, ind + '    ')
+        self.env = dict(saved)
+        missing = self.block(rest, ctx, m, ind + '    ')
+        self.env = saved
+        return self.emit_pre(self.let(pre, m, st), ind) + \
+            f'{ind}match find (fun v_{x} => {tc}) {lt} with\n{ind}| Some v_{x} =>\n{found}{ind}| None =>\n{missing}{ind}end\n'
+
+    def do_until(self, st, rest, ctx, m, ind):
+        """while True:
+               V = len(S)
+               for <targets> in L: <body>           (L a local list or a pure list property of the parser)
+               if len(S) == V: return <expr>
+        The body runs, then the test decides between returning and another round: do_until fuel body stop next state
+        (Model/DrawingPrims.v), fuel = loop_bound L = #L + 2 (Theory/DrawingGenThm.v: more fuel never changes the result)."""
+        shape = '`while True: V = len(S); for .. in L: ..; if len(S) == V: return <expr>`'
+        if st.orelse or rest or ctx[0] != 'ret' or len(st.body) != 3:
+            raise self.bad(st, f'`while True` is accepted only as the last statement of a function, in the shape {shape}')
+        a, f, last = st.body
+        if not (isinstance(last, ast.If) and not last.orelse and len(last.body) == 1 and isinstance(last.body[0], ast.Return)
+                and last.body[0].value is not None):
+            raise self.bad(st, f'`while True` without a final `if <test>: return <expr>` (accepted shape: {shape})')
+        B = [a, f]
+        if self.has_exit(B) or any(self.can_raise(s) for s in B) or self.can_raise(last.test):
+            raise self.bad(st, f'`while True` body with return / raise / a construct that can raise before the final test')
+        fuel = None
+        t = last.test
+        if isinstance(a, ast.Assign) and len(a.targets) == 1 and isinstance(a.targets[0], ast.Name) \
+                and isinstance(a.value, ast.Call) and dotted(a.value.func) == 'len' and 'len' not in self.env \
+                and len(a.value.args) == 1 and not a.value.keywords and isinstance(a.value.args[0], ast.Name) \
+                and isinstance(f, ast.For) and isinstance(t, ast.Compare) and len(t.ops) == 1 and isinstance(t.ops[0], ast.Eq) \
+                and sorted([ast.dump(t.left), ast.dump(t.comparators[0])]) == \
+                sorted([ast.dump(a.value), ast.dump(ast.Name(id=a.targets[0].id, ctx=ast.Load()))]):
+            it = f.iter
+            if isinstance(it, ast.Name) and it.id in self.env and it.id not in self.assigned(B) \
+                    and self.env[it.id].ty[0] in ('symlist', 'ptlist', 'pttuplelist'):
+                fuel = f'(loop_bound {self.env[it.id].coq})'
+            elif isinstance(it, ast.Attribute) and self.member_ref(it) is not None:
+                mem = self.member_ref(it)
+                if mem.is_property and not mem.monadic and mem.rty[0] == 'symlist':
+                    fuel = f'(loop_bound ({mem.call()}))'
+        if fuel is None:
+            raise self.bad(st, f'`while True` loop of a shape without a known iteration bound (accepted shape: {shape})')
+        carried = self.state_of(B, st)
+        top = [a.targets[0].id]
+        after = [n for n in self.assigned(B) if n in carried or n in top]
+        saved = dict(self.env)
+        p_in, pb_in = self.pat(carried, False), self.pat(carried, True)
+        body = self.block(B, ('state', after), False, ind + '    ')
+        pc, tc, tyc = self.expr(t)
+        if pc or tyc != ('bool',):
+            raise self.bad(last, 'the final test of the `while True` loop is not a boolean that cannot raise')
+        p_out, pb_out = self.pat(after, False), self.pat(after, True)
+        types = {n: self.env[n] for n in after}
+        self.env = saved
+        for n in after:
+            self.env[n] = Var(types[n].coq, types[n].ty)
+        out = (f'{ind}let {pb_out} := do_until {fuel} (fun {pb_in} =>\n{body}{ind}  ) (fun {pb_out} => {tc}) '
+               f'(fun {pb_out} => {p_in}) {p_in} in\n')
+        return out + self.block([last.body[0]], ctx, m, ind)
+
     def while_loop(self, st, rest, ctx, m, ind):
+        if isinstance(st.test, ast.Constant) and st.test.value is True:
+            return self.do_until(st, rest, ctx, m, ind)
         if st.orelse or self.has_exit(st.body) or any(self.can_raise(s) for s in st.body) or self.can_raise(st.test):
             raise self.bad(st, 'while loop with else / return / raise / a body that can raise')
         t = st.test
@@ -1548,7 +1742,8 @@ class Gen:
         self.maps = {'circuit_translator_map': 'g_circuit_translator_map', 'network_translator_map': 'network_translator_map'}
         self.reserved = {'self', 'elm', 'len', 'str', 'set', 'list', 'type', 'isinstance', 'tuple', 'map', 'schemdraw',
                          'SchematicDiagramParser', 'DiagramTranslator', 'Circuit', 'Network', 'Component', 'dataclass',
-                         'circuit_translator_map', 'network_translator_map', 'KeyError', 'AttributeError'} | set(EXCEPTIONS)
+                         'circuit_translator_map', 'network_translator_map', 'KeyError', 'AttributeError', 'hasattr',
+                         'True', 'False', 'None'} | set(EXCEPTIONS)
         self.out, self.members, self.active = [], {}, []
         # ---- DiagramParser.py
         self.ppath = os.path.join(src, *DP.split('/'))
